@@ -306,6 +306,15 @@ def make_index_observers():
             comps = _config_components(w, market)
             w.rec("idx_clock", market.market_id, t, market.get_fundamental_price(t),
                   [(_config_shares(w, c), c.get_fundamental_price(t), c.get_time()) for c in comps])
+        # whichever market has just been stepped: every index market asked for its value WITHOUT naming a time (= at its own
+        # current time), possibly while its components' clocks are already one step ahead of its own
+        for im in w.runner.simulator.markets:
+            if isinstance(im, IndexMarket) and im.get_time() >= 0:
+                ti = im.get_time()
+                comps = _config_components(w, im)
+                if all(c.get_time() >= ti for c in comps):
+                    w.rec("idx_now", im.market_id, ti, im.get_index(), im.get_market_index(), im.compute_market_index(),
+                          [(_config_shares(w, c), c.get_market_price(ti)) for c in comps], max(c.get_time() for c in comps))
 
     def obs(w, label):
         sim = w.runner.simulator
@@ -340,6 +349,14 @@ def acc_C17(w):
                 w.wit.inc("unequal_shares")
             if len(comps) >= 3:
                 w.wit.inc("three_components")
+        elif e[0] == "idx_now":
+            _, mid, ti, g1, g2, g3, comps, tc = e
+            want = wavg(comps)
+            V(close(g1, want, 1e-12) and close(g2, want, 1e-12) and close(g3, want, 1e-12), "C17.index",
+              "an index value read without naming a time differs from the share-weighted average of the components' market prices at the index market's current time",
+              "index time %d (components already at %d): get_index()=%r get_market_index()=%r compute_market_index()=%r expected %r" % (ti, tc, g1, g2, g3, want))
+            if tc > ti:
+                w.wit.inc("index_read_while_components_are_ahead")
         elif e[0] == "idx_obs":
             nobs += 1
             for s_, gi, gmi, comps in e[3]:
